@@ -589,12 +589,18 @@ func init() {
 		"transport is the fakegrpc model (ordered reliable frames per stream, window 2); Go primitives are the gomc shims",
 		"interleavings are explored up to the reported deviation bound from the non-preemptive round-robin schedule; free choices (arrival order, select ties) are exhaustive",
 	}
-	register(&Check{ID: "C01", Rule: rule + "; plus C05's stalled-sender family restricted to quorum calls (an earlier quorum call of the same goroutine has left a request queued behind a stalled sender): every reply shown to the second call's quorum function is the one the node's handler produced for that call's own request",
+	register(&Check{ID: "C01", Rule: rule + "; plus C05's stalled-sender family restricted to quorum calls (an earlier quorum call of the same goroutine has left a request queued behind a stalled sender): every reply shown to the second call's quorum function is the one the node's handler produced for that call's own request; plus C05's concurrent quorum calls on equal or overlapping configurations with handlers that release early and answer in every order (same oracle)",
 		Gen: func(tier string) []Instance {
 			out := qcInstances(tier)
 			for _, in := range xtalkInstances(tier) {
 				if strings.HasPrefix(in.Name, "stalled-sender/QuorumCall") && !strings.Contains(in.Name, ";Correctable") && !strings.Contains(in.Name, ";GRPCCall") {
 					in.Name = "after-earlier-call/" + in.Name
+					out = append(out, in)
+				}
+				// concurrent quorum calls on equal / overlapping configurations, every handler releasing early and
+				// answering late (C05's family, quorum calls only)
+				if strings.HasPrefix(in.Name, "xtalk/QuorumCall") && !strings.Contains(in.Name, "Correctable") && (!strings.Contains(in.Name, "GRPCCall") || strings.Contains(in.Name, "thr2")) && !strings.Contains(in.Name, "cast") {
+					in.Name = "among-concurrent-calls/" + in.Name
 					out = append(out, in)
 				}
 			}
